@@ -1196,6 +1196,12 @@ func (e *c09Env) converge(nkeys int) {
 		}
 		e.x("conv end\t%s\t%d\t%v", c09hx(k), rounds, ok)
 	}
+	// regression of F08 (fixed by 0dbaf7e): the end of the key space belongs to the last region, cached or not
+	e.opLocateEnd(nil)
+	if e.rng.Intn(2) == 0 {
+		e.opClear()
+		e.opLocateEnd(nil)
+	}
 }
 
 func (e *c09Env) seqRandom(nsteps int, staleP float64, realistic bool) {
